@@ -572,7 +572,11 @@ fn gen_type(rng: &mut Rng, depth: usize, dom: Dom) -> DataType {
         5 | 6 => {
             let kt = rng.pick(&[DataType::Int8, DataType::Int16, DataType::Int32, DataType::Int64, DataType::UInt8, DataType::UInt16, DataType::UInt32, DataType::UInt64]).clone();
             let mut vt = gen_type(rng, depth - 1, below);
-            while matches!(vt, DataType::Dictionary(_, _) | DataType::Null | DataType::RunEndEncoded(_, _) | DataType::Union(_, _)) {
+            // list views as dictionary values: `arrow_data::equal::list_view_equal` (used by the
+            // tracker's dictionary comparison) is a known-defect domain of its own (probe dict-listview-resized)
+            while matches!(vt, DataType::Dictionary(_, _) | DataType::Null | DataType::RunEndEncoded(_, _) | DataType::Union(_, _))
+                || has_type(&vt, &|x| matches!(x, DataType::ListView(_) | DataType::LargeListView(_)))
+            {
                 vt = rng.pick(&leaves).clone();
             }
             DataType::Dictionary(Box::new(kt), Box::new(vt))
@@ -995,6 +999,14 @@ fn run_rt(t: &[&str]) -> (String, Option<String>, String) {
         dom: t[12].into(),
     };
     let (schema, batches, mut tags) = build_batches(&c);
+    if std::env::var("VERIF_DEBUG").is_ok() {
+        eprintln!("{:#?}", schema);
+        for b in &batches {
+            for col in b.columns() {
+                eprintln!("{:?}", col.to_data());
+            }
+        }
+    }
     let o = match rt_options(&c) {
         Ok(o) => o,
         Err(e) => return (err_class(&e).into(), Some("options rejected".into()), tags),
@@ -1125,6 +1137,39 @@ fn run_probe(name: &str) -> String {
         "ree-empty-slice" => {
             let a = RunArray::<Int32Type>::try_new(&Int32Array::from(vec![2, 4]), &Int32Array::from(vec![7, 8])).unwrap();
             (Arc::new(a.slice(2, 0)), 5)
+        }
+        "dict-listview-resized" | "dict-list-resized" => {
+            // two batches whose dictionaries differ only in the size of a list(-view) element, with a null slot
+            let mk = |size0: i32| -> ArrayRef {
+                let child: ArrayRef = Arc::new(Int32Array::from(vec![1, 2]));
+                let f = Arc::new(Field::new("item", DataType::Int32, true));
+                let nulls = Some(NullBuffer::from(vec![true, false]));
+                let values: ArrayRef = if name == "dict-listview-resized" {
+                    Arc::new(ListViewArray::try_new(f, vec![0, 0].into(), vec![size0, 0].into(), child, nulls).unwrap())
+                } else {
+                    Arc::new(ListArray::try_new(f, OffsetBuffer::new(vec![0, size0, size0].into()), child, nulls).unwrap())
+                };
+                Arc::new(DictionaryArray::<Int8Type>::try_new(Int8Array::from(vec![0, 0]), values).unwrap())
+            };
+            let (a, b) = (mk(2), mk(1));
+            let schema = Arc::new(Schema::new(vec![Field::new("c", a.data_type().clone(), true)]));
+            let batches = vec![RecordBatch::try_new(schema.clone(), vec![a]).unwrap(), RecordBatch::try_new(schema.clone(), vec![b]).unwrap()];
+            let mut w = StreamWriter::try_new_with_options(Vec::new(), &schema, opts(8, false, 5)).unwrap();
+            for bt in &batches {
+                if let Err(e) = w.write(bt) {
+                    return format!("WRITE-{}", err_class(&e));
+                }
+            }
+            w.finish().unwrap();
+            let bytes = w.into_inner().unwrap();
+            let got: Result<Vec<RecordBatch>, ArrowError> = StreamReader::try_new(Cursor::new(bytes), None).and_then(|r| r.collect());
+            return match got {
+                Err(e) => format!("READ-{}", err_class(&e)),
+                Ok(g) => {
+                    let rows = |bs: &[RecordBatch]| bs.iter().map(|b| fmt_rows(b.column(0).as_ref()).map(|v| v.join("|")).unwrap_or("?".into())).collect::<Vec<_>>().join(";").replace(' ', "");
+                    if rows(&g) == rows(&batches) { "ok".into() } else { format!("MISMATCH:got={}:want={}", rows(&g), rows(&batches)) }
+                }
+            };
         }
         "union-in-sliced-list-sparse" | "union-in-sliced-list-dense" | "union-in-list-unsliced" => {
             let fields = UnionFields::try_new(vec![0, 1], vec![Field::new("a", DataType::Int32, true), Field::new("b", DataType::Int32, true)]).unwrap();
@@ -1456,6 +1501,183 @@ fn dict_col_values_any(col: &ArrayRef) -> String {
     dots(&v)
 }
 
+
+// ------------------------------------------------------------------------------------ projection: skipped column family
+
+/// every type of the grid as the column a projection skips (nested two deep included); unions
+/// and run ends only where they are not below a sliced parent (those are separate known-defect domains)
+fn skip_types() -> Vec<DataType> {
+    let f = |n: &str, t: DataType| Field::new(n, t, true);
+    let af = |n: &str, t: DataType| Arc::new(Field::new(n, t, true));
+    let sparse = |ts: Vec<DataType>| {
+        let ids: Vec<i8> = (0..ts.len()).map(|i| (i * 2 + 1) as i8).collect();
+        DataType::Union(UnionFields::try_new(ids, ts.into_iter().enumerate().map(|(i, t)| Field::new(format!("u{i}"), t, true)).collect::<Vec<_>>()).unwrap(), UnionMode::Sparse)
+    };
+    let dense = |ts: Vec<DataType>| {
+        let ids: Vec<i8> = (0..ts.len()).map(|i| (i * 3) as i8).collect();
+        DataType::Union(UnionFields::try_new(ids, ts.into_iter().enumerate().map(|(i, t)| Field::new(format!("u{i}"), t, true)).collect::<Vec<_>>()).unwrap(), UnionMode::Dense)
+    };
+    let ree = |r: DataType, v: DataType| DataType::RunEndEncoded(Arc::new(Field::new("run_ends", r, false)), Arc::new(Field::new("values", v, true)));
+    let map = |k: DataType, v: DataType| DataType::Map(Arc::new(Field::new("entries", DataType::Struct(vec![Field::new("key", k, false), Field::new("value", v, true)].into()), false)), false);
+    let st = |ts: Vec<DataType>| DataType::Struct(ts.into_iter().enumerate().map(|(i, t)| f(&format!("f{i}"), t)).collect::<Vec<_>>().into());
+    let dict = |k: DataType, v: DataType| DataType::Dictionary(Box::new(k), Box::new(v));
+    let mut v = leaf_types();
+    v.extend(vec![
+        sparse(vec![DataType::Int32, DataType::Utf8]),
+        sparse(vec![DataType::Boolean]),
+        dense(vec![DataType::Int32, DataType::Boolean]),
+        dense(vec![DataType::Utf8, DataType::Int64, DataType::Null]),
+        DataType::List(af("item", DataType::Int32)),
+        DataType::LargeList(af("item", DataType::Utf8)),
+        DataType::FixedSizeList(af("item", DataType::Boolean), 3),
+        DataType::ListView(af("item", DataType::Int16)),
+        DataType::LargeListView(af("item", DataType::Utf8)),
+        st(vec![DataType::Int32, DataType::Utf8]),
+        st(vec![]),
+        map(DataType::Utf8, DataType::Int32),
+        dict(DataType::Int8, DataType::Utf8),
+        dict(DataType::UInt32, DataType::Decimal128(38, 10)),
+        ree(DataType::Int32, DataType::Utf8),
+        ree(DataType::Int16, DataType::Boolean),
+        // two deep
+        st(vec![sparse(vec![DataType::Int32, DataType::Utf8]), DataType::Boolean]),
+        st(vec![dense(vec![DataType::Int8, DataType::Utf8View]), DataType::Null]),
+        sparse(vec![st(vec![DataType::Int32, DataType::Boolean]), DataType::List(af("item", DataType::Int32))]),
+        sparse(vec![sparse(vec![DataType::Boolean, DataType::Int64]), DataType::Utf8]),
+        dense(vec![sparse(vec![DataType::Int32]), dense(vec![DataType::Boolean, DataType::Utf8])]),
+        dense(vec![map(DataType::Int32, DataType::Utf8), DataType::FixedSizeBinary(3)]),
+        st(vec![DataType::List(af("item", st(vec![DataType::Int32]))), DataType::Decimal256(76, 5)]),
+        DataType::List(af("item", DataType::List(af("item", DataType::Utf8)))),
+        DataType::LargeList(af("item", st(vec![DataType::Boolean, DataType::Binary]))),
+        DataType::FixedSizeList(af("item", st(vec![DataType::Boolean, DataType::Utf8View])), 2),
+        map(DataType::Int32, DataType::List(af("item", DataType::Boolean))),
+        dict(DataType::UInt16, DataType::List(af("item", DataType::Utf8))),
+        dict(DataType::Int64, st(vec![DataType::Int32, DataType::Utf8])),
+        ree(DataType::Int64, st(vec![DataType::Int32, DataType::Boolean])),
+        st(vec![ree(DataType::Int32, DataType::Int8), DataType::Utf8]),
+        sparse(vec![ree(DataType::Int16, DataType::Utf8), DataType::Boolean]),
+        st(vec![dict(DataType::Int8, DataType::Utf8), DataType::BinaryView]),
+        DataType::List(af("item", dict(DataType::Int16, DataType::LargeUtf8))),
+    ]);
+    v
+}
+
+fn later_column(rng: &mut Rng, dt: &DataType, nullable: bool, n: usize) -> ArrayRef {
+    let nulls = if nullable { gen_nulls(rng, n) } else { None };
+    match dt {
+        DataType::Boolean => {
+            let off = rng.usize(9);
+            Arc::new(BooleanArray::new(BooleanBuffer::new(Buffer::from_vec(rng.bytes((off + n + 7) / 8)), off, n), nulls))
+        }
+        DataType::Int32 => Arc::new(Int32Array::new((0..n).map(|_| rng.next_u64() as i32).collect::<Vec<_>>().into(), nulls)),
+        _ => {
+            let a = StringArray::from_iter_values(gen_strings(rng, n, false).iter().map(|v| String::from_utf8(v.clone()).unwrap()));
+            let (o, v, _) = a.into_parts();
+            Arc::new(StringArray::new(o, v, nulls))
+        }
+    }
+}
+
+/// C04 proj <file|stream> <ver> <kind|r> <seed>: projected read == project(full read)
+fn run_proj(t: &[&str]) -> (String, Option<String>, String) {
+    let file = t[2] == "file";
+    let ver: u8 = t[3].parse().unwrap();
+    let seed: u64 = t[5].parse().unwrap();
+    let mut rng = Rng::new(seed ^ 0x9A07);
+    let skip_t = if t[4] == "r" {
+        gen_type(&mut rng, 2, Dom { ree: ver == 5, sliced_children: false, ree_sliced: false, union_sliced: false })
+    } else {
+        skip_types()[t[4].parse::<usize>().unwrap()].clone()
+    };
+    let has_ree = has_type(&skip_t, &|x| matches!(x, DataType::RunEndEncoded(_, _)));
+    let mut tags = format!("skip:{} ", skip_t.to_string().chars().take_while(|c| c.is_alphanumeric()).collect::<String>());
+    if let DataType::Union(_, m) = &skip_t {
+        tags.push_str(if *m == UnionMode::Sparse { "skip-union:sparse " } else { "skip-union:dense " });
+    }
+    if has_type(&skip_t, &|x| matches!(x, DataType::Union(_, UnionMode::Sparse))) {
+        tags.push_str("has-sparse-union ");
+    }
+    if has_ree && ver == 4 {
+        tags.push_str("kf:ree-v4 ");
+    }
+    let mut fields = vec![];
+    if rng.chance(1, 3) {
+        fields.push(Field::new("pre", DataType::Int32, true));
+    }
+    let skip_idx = fields.len();
+    fields.push(Field::new("skip", skip_t.clone(), true));
+    let nlater = 1 + rng.usize(3);
+    for i in 0..nlater {
+        let dt = rng.pick(&[DataType::Boolean, DataType::Int32, DataType::Utf8]).clone();
+        fields.push(Field::new(format!("l{i}"), dt, rng.bool()));
+    }
+    let schema = Arc::new(Schema::new(fields));
+    let nb = 1 + rng.usize(2);
+    let mut batches = vec![];
+    let mut ctx = Ctx { pool: HashMap::new(), evo: 0, batch: 0 };
+    for bi in 0..nb {
+        ctx.batch = bi;
+        let rows = 1 + rng.usize(24);
+        let cols: Vec<ArrayRef> = schema
+            .fields()
+            .iter()
+            .enumerate()
+            .map(|(i, f)| if i == skip_idx { gen_array(&mut rng, f.data_type(), rows, &mut ctx, "skip") } else { later_column(&mut rng, f.data_type(), f.is_nullable(), rows) })
+            .collect();
+        batches.push(RecordBatch::try_new(schema.clone(), cols).unwrap());
+    }
+    let o = opts(8, false, ver);
+    let bytes = if file {
+        let mut w = FileWriter::try_new_with_options(Vec::new(), &schema, o).unwrap();
+        for b in &batches {
+            if let Err(e) = w.write(b) {
+                return (err_class(&e).into(), Some(format!("write failed: {e}")), tags);
+            }
+        }
+        w.finish().unwrap();
+        w.into_inner().unwrap()
+    } else {
+        let mut w = StreamWriter::try_new_with_options(Vec::new(), &schema, o).unwrap();
+        for b in &batches {
+            if let Err(e) = w.write(b) {
+                return (err_class(&e).into(), Some(format!("write failed: {e}")), tags);
+            }
+        }
+        w.finish().unwrap();
+        w.into_inner().unwrap()
+    };
+    let read = |p: Option<Vec<usize>>| -> Result<Vec<RecordBatch>, ArrowError> {
+        if file {
+            FileReader::try_new(Cursor::new(bytes.clone()), p)?.collect()
+        } else {
+            StreamReader::try_new(Cursor::new(bytes.clone()), p)?.collect()
+        }
+    };
+    let full = match read(None) {
+        Ok(f) => f,
+        Err(e) => return (err_class(&e).into(), Some(format!("full read failed: {e}")), tags),
+    };
+    if let Some(why) = compare_batches(&batches, &full) {
+        return ("MISMATCH".into(), Some(format!("full read: {why}")), tags);
+    }
+    // every projection that excludes the skipped column and keeps at least one later column
+    let n = schema.fields().len();
+    let mut projs: Vec<Vec<usize>> = vec![(0..n).filter(|i| *i != skip_idx).collect()];
+    projs.push((skip_idx + 1..n).collect());
+    projs.push(vec![n - 1]);
+    for p in projs {
+        let got = match read(Some(p.clone())) {
+            Ok(g) => g,
+            Err(e) => return (err_class(&e).into(), Some(format!("projected read {:?} failed: {e}", p)), tags),
+        };
+        let exp: Vec<RecordBatch> = full.iter().map(|b| b.project(&p).unwrap()).collect();
+        if let Some(why) = compare_batches(&exp, &got) {
+            return ("MISMATCH".into(), Some(format!("projection {:?} != project(full read): {why}", p)), tags);
+        }
+    }
+    ("ok".into(), None, tags)
+}
+
 // ------------------------------------------------------------------------------------ dispatch
 
 fn run_case(line: &str) -> (String, Option<String>, String) {
@@ -1498,6 +1720,20 @@ fn run_case(line: &str) -> (String, Option<String>, String) {
             let a = guarded(|| run_probe(t[2]));
             let o = if a == "ok" { None } else { Some(format!("probe {}: {}", t[2], a)) };
             (a, o, format!("kf:{}", t[2]))
+        }
+        "proj" => {
+            let mut o = None;
+            let mut tags = String::new();
+            let a = guarded(|| {
+                let (a, f, tg) = run_proj(&t);
+                o = f;
+                tags = tg;
+                a
+            });
+            if a == "PANIC" {
+                o = Some("panic during projected round trip".into());
+            }
+            (a, o, tags)
         }
         "rt" => {
             let mut o = None;
@@ -1657,6 +1893,17 @@ fn gen_supported_type(rng: &mut Rng, depth: usize) -> DataType {
 
 fn gen_case(rng: &mut Rng) -> (String, String) {
     let aligns = [8usize, 16, 32, 64];
+    if rng.chance(1, 8) {
+        // projection family: every grid type as the skipped column x V4/V5 x file/stream
+        let n = skip_types().len();
+        let kind = if rng.chance(1, 5) { "r".to_string() } else { rng.usize(n).to_string() };
+        let mut ver = if rng.bool() { 4 } else { 5 };
+        if kind != "r" && has_type(&skip_types()[kind.parse::<usize>().unwrap()], &|x| matches!(x, DataType::RunEndEncoded(_, _))) {
+            ver = 5; // run ends under V4 are the `ree-v4` known-defect domain
+        }
+        let rd = if rng.bool() { "file" } else { "stream" };
+        return (format!("C04 proj {} {} {} {}", rd, ver, kind, rng.next_u64() >> 16), format!("op:proj pr:{} pv{} nt", rd, ver));
+    }
     if rng.chance(1, 6) {
         let depth = rng.usize(3);
         let dt = gen_supported_type(rng, depth);
@@ -1718,7 +1965,7 @@ fn gen_case(rng: &mut Rng) -> (String, String) {
         }
         6 => {
             if rng.chance(1, 4) {
-                let name = *rng.pick(&["ree-v4", "ree-v5", "ree-empty-slice", "union-in-sliced-list-sparse", "union-in-sliced-list-dense", "union-in-list-unsliced", "file-continue-after-error-delta", "file-continue-after-error-resend"]);
+                let name = *rng.pick(&["ree-v4", "ree-v5", "ree-empty-slice", "union-in-sliced-list-sparse", "union-in-sliced-list-dense", "union-in-list-unsliced", "file-continue-after-error-delta", "file-continue-after-error-resend", "dict-listview-resized", "dict-list-resized"]);
                 (format!("C04 probe {}", name), "op:probe".into())
             } else {
                 (format!("C04 allvalid {}", rng.usize(70)), "op:allvalid".into())
